@@ -567,7 +567,8 @@ def judge_reencode(ctx, c):
 def judge(ctx, c):
     if c.get('k') == 'reencode':
         return judge_reencode(ctx, c)
-    with util.options(lsb0=False, bytealigned=False):
+    # options.bytealigned governs searches only; a code word and its decoding must not depend on it
+    with util.options(lsb0=False, bytealigned=bool(c.get('oba'))):
         JUDGES[c['k']](ctx, c)
 
 
@@ -678,6 +679,8 @@ def run(ctx):
             continue
         for code in CODES:
             c = {'k': 'int', 'code': code, 'v': v}
+            if i % 5 == 4:
+                c['oba'] = True
             if ctx.quick and abs(v) > 64:
                 c['lite'] = True
             if abs(v) > P:
@@ -700,6 +703,8 @@ def run(ctx):
             if not ctx.mine(i):
                 continue
             c = {'k': 'dec', 'bits': ''.join(tup), 'cls': util.CLASS_NAMES[i % 4]}
+            if i % 7 == 6:
+                c['oba'] = True
             ctx.run_case(judge, c)
             if i % 6007 == 0:
                 ctx.sample(c)
@@ -721,6 +726,8 @@ def run(ctx):
     for i in range(ctx.scale(400, 40000)):
         code = rng.choice(CODES)
         c = gen_huge(ctx, rand_int(rng, True), code)
+        if i % 4 == 3:
+            c['oba'] = True
         ctx.run_case(judge, c)
         if i % 499 == 0:
             ctx.sample(short(c))
@@ -738,6 +745,8 @@ def run(ctx):
     # 4. mixed sequences
     for i in range(ctx.scale(2000, 120000)):
         c = gen_seq(ctx)
+        if i % 4 == 3:
+            c['oba'] = True
         ctx.run_case(judge, c)
         if i % 997 == 0:
             ctx.sample(short(c))
